@@ -152,11 +152,14 @@ func init() {
 }
 
 // commonAnchors: how a request is decomposed before any method or bias runs (which alternatives are considered, in which
-// order, with which parsed parameters) is a premise of every property about the outcome of a decision.
+// order, with which parsed parameters) and how it travels through the HTTP handler is a premise of every property about
+// the outcome of a decision.
 var commonAnchorRe = []*regexp.Regexp{
 	regexp.MustCompile(`^model\.\(\*DecisionMaker\)\.(MakeDecision|prepareParams|AlternativesToConsider|NotConsideredAlternatives|validateAlternatives)$`),
 	regexp.MustCompile(`^model\.(FetchAlternatives|FetchAlternative)$`),
 	regexp.MustCompile(`^model\.\(\*PreferenceFunctions\)\.(Fetch|Get|Len)$`),
+	// the HTTP handler decodes the request every property speaks about and encodes the response it is observed in
+	regexp.MustCompile(`^main\.(decideHandler|writeJSON|writeError)$`),
 }
 
 func commonAnchor(prop, key string) bool {
